@@ -175,6 +175,9 @@ func pseudoText(p selPseudo, variant int) string {
 		if p.Op == "exists" {
 			return "[t]"
 		}
+		if p.Op == "class" {
+			return "." + runesToString(p.Val)
+		}
 		s := "[t" + p.Op + cssString(p.Val)
 		if p.Ci {
 			s += " i"
@@ -286,6 +289,16 @@ func c05Main(args []string) int {
 			return
 		}
 		nodes := buildDOM(&s.Tree)
+		if len(s.Sel) == 1 && len(s.Sel[0].Cs) == 1 && len(s.Sel[0].Cs[0].Pcs) == 1 && s.Sel[0].Cs[0].Pcs[0].Op == "class" {
+			// the class selector reads the attribute `class`
+			for _, n := range nodes {
+				for k := range n.Attr {
+					if n.Attr[k].Key == "t" {
+						n.Attr[k].Key = "class"
+					}
+				}
+			}
+		}
 		skipRoot := hasStructural(s.Sel) // Selectors 3 and 4 differ on structural pseudo-classes of the root element
 		for variant := 0; variant < 3; variant++ {
 			var parts []string
